@@ -269,6 +269,7 @@ def _max_requests(case, tally):
     try:
         h.start()
         h.wait_event(lambda e: e[2] == "app" and e[3] == "send.", 3.0)
+        h.wait_ready()
         upper = case["max_requests"] + case["jitter"] + 1
         for i in range(upper + 6):
             if h.done.is_set():
